@@ -6,9 +6,9 @@ Nothing here assumes that the bytes were produced by `esl_newssi_Write`: `d : Ar
   (`bsearchLoop_sound`), and it only ever touches records `0 .. maxidx-1` (`bsearchLoop_bound`).
 * `esl_ssi_FindName` returns either a record of the primary section whose key field is the probe, or one reached from
   the probe through records of the secondary section (`findName_sound`).
-* the statuses that can come out (`open_status`, `findName_status`, `findNumber_status`, `findSubseq_status`) and the
-  exact conditions under which the model's fault outcomes (`fault`: `strcmp` on a key field without terminator, file
-  handle beyond the per-file arrays, division by `rpl = 0`; `nohalt`: unbounded alias recursion) are excluded. -/
+* the statuses that can come out (`open_status`, `findName_status`, `findNumber_status`, `findSubseq_status`): the
+  documented ones only — no read leaves a buffer (`fault` never comes out of an opened index), and the alias recursion
+  ends (`nohalt` excluded) when no stored alias names another stored alias. -/
 namespace EaselModel.Ssi
 
 /-! ## binary search on an arbitrary record array -/
@@ -85,27 +85,15 @@ theorem bsearchLoop_error (rdName : Nat → Except St Bytes) (key : Bytes) (left
             · exact .inl h1
             · exact .inr ⟨m', by omega, hm2⟩
 
-/-- a read of a key field fails with `eslEFORMAT` (short read) or `fault` (no terminator inside the field) -/
+/-- a read of a key field fails only by a short read, `eslEFORMAT` -/
 theorem rdNameAt_error (d : Array UInt8) (klen base recsize mid : Nat) (e : St)
-    (h : rdNameAt d klen base recsize mid = .error e) :
-    (e = .eformat ∧ readAt d (base + recsize * mid) klen = none) ∨
-    (e = .fault ∧ ∃ buf, readAt d (base + recsize * mid) klen = some buf ∧ (0 : UInt8) ∉ buf) := by
+    (h : rdNameAt d klen base recsize mid = .error e) : e = .eformat ∧ readAt d (base + recsize * mid) klen = none := by
   unfold rdNameAt at h
   cases hr : readAt d (base + recsize * mid) klen with
   | none =>
     simp only [hr] at h
-    left; injection h with h; exact ⟨h.symm, rfl⟩
-  | some buf =>
-    simp only [hr] at h
-    by_cases h0 : (0 : UInt8) ∈ buf
-    · have hc : cstr? buf = some (cstr buf) := by simp [cstr?, h0]
-      rw [hc] at h
-      cases h
-    · have hc : cstr? buf = none := by simp [cstr?, h0]
-      rw [hc] at h
-      right
-      injection h with h
-      exact ⟨h.symm, buf, rfl, h0⟩
+    injection h with h; exact ⟨h.symm, rfl⟩
+  | some buf => simp [hr] at h
 
 /-- `binary_search` on arbitrary bytes: on success the record found is one of records `0..maxidx-1` of the section and
     its key field holds exactly `key`; the position returned is just behind that field -/
@@ -115,40 +103,35 @@ theorem bsearch_sound (d : Array UInt8) (key : Bytes) (klen base recsize maxidx 
   unfold bsearch at h
   by_cases h0 : maxidx = 0
   · simp [h0] at h
-  · by_cases hk : klen = 0
-    · simp [h0, hk] at h
-    · simp only [h0, hk, ↓reduceIte] at h
-      cases hl : bsearchLoop (rdNameAt d klen base recsize) key 0 (maxidx - 1) with
-      | error e => simp [hl] at h
-      | ok mid =>
-        simp only [hl] at h
-        have := bsearchLoop_sound _ key 0 (maxidx - 1) mid hl
-        injection h with h
-        exact ⟨mid, by omega, this.1, h.symm⟩
+  · simp only [h0, ↓reduceIte] at h
+    cases hl : bsearchLoop (rdNameAt d klen base recsize) key 0 (maxidx - 1) with
+    | error e => simp [hl] at h
+    | ok mid =>
+      simp only [hl] at h
+      have := bsearchLoop_sound _ key 0 (maxidx - 1) mid hl
+      injection h with h
+      exact ⟨mid, by omega, this.1, h.symm⟩
 
-/-- the statuses `binary_search` can fail with, and when -/
+/-- `binary_search` fails with `eslENOTFOUND`, or with `eslEFORMAT` when one of records `0..maxidx-1` lies (partly) beyond
+    the end of the file — nothing else -/
 theorem bsearch_error (d : Array UInt8) (key : Bytes) (klen base recsize maxidx : Nat) (e : St)
     (h : bsearch d key klen base recsize maxidx = .error e) :
-    e = .enotfound ∨ (e = .emem ∧ klen = 0) ∨
-    (∃ j, j < maxidx ∧ ((e = .eformat ∧ readAt d (base + recsize * j) klen = none) ∨
-       (e = .fault ∧ ∃ buf, readAt d (base + recsize * j) klen = some buf ∧ (0 : UInt8) ∉ buf))) := by
+    e = .enotfound ∨ (e = .eformat ∧ ∃ j, j < maxidx ∧ readAt d (base + recsize * j) klen = none) := by
   unfold bsearch at h
   by_cases h0 : maxidx = 0
   · simp only [h0, ↓reduceIte] at h
     left; injection h with h; exact h.symm
-  · by_cases hk : klen = 0
-    · simp only [h0, hk, ↓reduceIte] at h
-      right; left; injection h with h; exact ⟨h.symm, hk⟩
-    · simp only [h0, hk, ↓reduceIte] at h
-      cases hl : bsearchLoop (rdNameAt d klen base recsize) key 0 (maxidx - 1) with
-      | ok mid => simp [hl] at h
-      | error e' =>
-        simp only [hl] at h
-        have he : e' = e := by injection h
-        subst he
-        rcases bsearchLoop_error _ key 0 (maxidx - 1) e' hl with h1 | ⟨m, hm1, hm2⟩
-        · exact .inl h1
-        · exact .inr (.inr ⟨m, by omega, rdNameAt_error d klen base recsize m e' hm2⟩)
+  · simp only [h0, ↓reduceIte] at h
+    cases hl : bsearchLoop (rdNameAt d klen base recsize) key 0 (maxidx - 1) with
+    | ok mid => simp [hl] at h
+    | error e' =>
+      simp only [hl] at h
+      have he : e' = e := by injection h
+      subst he
+      rcases bsearchLoop_error _ key 0 (maxidx - 1) e' hl with h1 | ⟨m, hm1, hm2⟩
+      · exact .inl h1
+      · have := rdNameAt_error d klen base recsize m e' hm2
+        exact .inr ⟨this.1, m, by omega, this.2⟩
 
 /-! ## `esl_ssi_FindName` on an arbitrary index -/
 
@@ -160,7 +143,7 @@ def Ssi.PrimaryRec (s : Ssi) (j : Nat) (key : Bytes) (hit : Hit) : Prop :=
 /-- record `j` of the secondary section holds the alias `alias` and names the primary key `target` -/
 def Ssi.AliasRec (s : Ssi) (j : Nat) (alias target : Bytes) : Prop :=
   j < s.nsecondary ∧ rdNameAt s.data s.slen s.soffset s.srecsize j = .ok alias ∧
-    ∃ buf, readAt s.data (s.soffset + s.srecsize * j + s.slen) s.plen = some buf ∧ cstr? buf = some target
+    ∃ buf, readAt s.data (s.soffset + s.srecsize * j + s.slen) s.plen = some buf ∧ cstr buf = target
 
 /-- `key` leads to the numbers `hit` through stored records only: a primary record carrying `key`, or an alias record
     carrying `key` whose target does -/
@@ -185,9 +168,8 @@ theorem findName_sound (s : Ssi) (fuel : Nat) (key : Bytes) (hit : Hit) (h : s.f
       exact .primary j key hit ⟨hj, hrd, h⟩
     | error e =>
       simp only [hb] at h
-      cases e with
-      | enotfound =>
-        simp only [] at h
+      rcases bsearch_error _ _ _ _ _ _ _ hb with rfl | ⟨rfl, _⟩
+      · simp only [] at h
         by_cases hn : s.nsecondary > 0
         · simp only [hn, ↓reduceIte] at h
           cases hb2 : bsearch s.data key s.slen s.soffset s.srecsize s.nsecondary with
@@ -195,54 +177,38 @@ theorem findName_sound (s : Ssi) (fuel : Nat) (key : Bytes) (hit : Hit) (h : s.f
           | ok pos =>
             simp only [hb2] at h
             obtain ⟨j, hj, hrd, rfl⟩ := bsearch_sound _ _ _ _ _ _ _ hb2
-            by_cases hpl : s.plen = 0
-            · simp [hpl] at h
-            · simp only [hpl, ↓reduceIte] at h
-              cases hra : readAt s.data (s.soffset + s.srecsize * j + s.slen) s.plen with
-              | none => simp [hra] at h
-              | some buf =>
-                simp only [hra] at h
-                cases hcs : cstr? buf with
-                | none => simp [hcs] at h
-                | some pkey =>
-                  simp only [hcs] at h
-                  exact .alias j key pkey hit ⟨hj, hrd, buf, hra, hcs⟩ (ih pkey h)
+            cases hra : readAt s.data (s.soffset + s.srecsize * j + s.slen) s.plen with
+            | none => simp [hra] at h
+            | some buf =>
+              simp only [hra] at h
+              exact .alias j key (cstr buf) hit ⟨hj, hrd, buf, hra, rfl⟩ (ih _ h)
         · simp [hn] at h
-      | eformat => simp at h
-      | erange => simp at h
-      | edup => simp at h
-      | einval => simp at h
-      | esys => simp at h
-      | emem => simp at h
-      | eincompat => simp at h
-      | fault => simp at h
-      | nohalt => simp at h
+      · simp at h
 
-/-- the statuses `esl_ssi_FindName` can return on ANY index: the documented `eslENOTFOUND`, `eslEFORMAT`, (`eslEMEM`
-    for a zero-width key field), and the model's two fault outcomes -/
+theorem readHit_error (s : Ssi) (pos : Nat) (e : St) (h : readHit s pos = .error e) : e = .eformat := by
+  unfold readHit at h
+  split at h
+  · cases h
+  · injection h with h; exact h.symm
+
+/-- the statuses `esl_ssi_FindName` can return on ANY index: the documented `eslENOTFOUND` and `eslEFORMAT`, and `nohalt`
+    (the recursion through alias records did not end within the fuel). No read leaves a buffer. -/
 theorem findName_status (s : Ssi) (fuel : Nat) (key : Bytes) (e : St) (h : s.findNameAux fuel key = .error e) :
-    e = .enotfound ∨ e = .eformat ∨ e = .emem ∨ e = .fault ∨ e = .nohalt := by
+    e = .enotfound ∨ e = .eformat ∨ e = .nohalt := by
   induction fuel generalizing key with
   | zero =>
     simp only [Ssi.findNameAux] at h
     injection h with h; simp [← h]
   | succ fuel ih =>
-    have bs : ∀ klen base recsize maxidx e', bsearch s.data key klen base recsize maxidx = .error e' →
-        e' = .enotfound ∨ e' = .eformat ∨ e' = .emem ∨ e' = .fault ∨ e' = .nohalt := by
-      intro klen base recsize maxidx e' hb
-      rcases bsearch_error _ _ _ _ _ _ _ hb with h1 | ⟨h1, _⟩ | ⟨j, _, ⟨h1, _⟩ | ⟨h1, _⟩⟩ <;> simp [h1]
     rw [Ssi.findNameAux] at h
     cases hb : bsearch s.data key s.plen s.poffset s.precsize s.nprimary with
     | ok pos =>
       simp only [hb] at h
-      unfold readHit at h
-      split at h
-      · cases h
-      · injection h with h; simp [← h]
+      have := readHit_error s pos e h
+      simp [this]
     | error e1 =>
-      have h1 := bs _ _ _ _ _ hb
       simp only [hb] at h
-      rcases h1 with rfl | rfl | rfl | rfl | rfl
+      rcases bsearch_error _ _ _ _ _ _ _ hb with rfl | ⟨rfl, _⟩
       · simp only [] at h
         by_cases hn : s.nsecondary > 0
         · simp only [hn, ↓reduceIte] at h
@@ -251,102 +217,24 @@ theorem findName_status (s : Ssi) (fuel : Nat) (key : Bytes) (e : St) (h : s.fin
             simp only [hb2] at h
             injection h with h
             subst h
-            exact bs _ _ _ _ _ hb2
+            rcases bsearch_error _ _ _ _ _ _ _ hb2 with h1 | ⟨h1, _⟩ <;> simp [h1]
           | ok pos =>
             simp only [hb2] at h
-            by_cases hpl : s.plen = 0
-            · simp only [hpl, ↓reduceIte] at h
+            cases hra : readAt s.data pos s.plen with
+            | none =>
+              simp only [hra] at h
               injection h with h; simp [← h]
-            · simp only [hpl, ↓reduceIte] at h
-              cases hra : readAt s.data pos s.plen with
-              | none =>
-                simp only [hra] at h
-                injection h with h; simp [← h]
-              | some buf =>
-                simp only [hra] at h
-                cases hcs : cstr? buf with
-                | none =>
-                  simp only [hcs] at h
-                  injection h with h; simp [← h]
-                | some pkey =>
-                  simp only [hcs] at h
-                  exact ih pkey h
+            | some buf =>
+              simp only [hra] at h
+              exact ih _ h
         · simp only [hn, ↓reduceIte] at h
           injection h with h; simp [← h]
-      all_goals (simp only [] at h; injection h with h; simp [← h])
+      · simp only [] at h
+        injection h with h; simp [← h]
 
-/-- every key field of the two key sections that can be read at all holds a terminated string (true of every written
-    index: the fields are one byte wider than the longest key) -/
-def Ssi.Terminated (s : Ssi) : Prop :=
-  (∀ j buf, j < s.nprimary → readAt s.data (s.poffset + s.precsize * j) s.plen = some buf → (0 : UInt8) ∈ buf) ∧
-  (∀ j buf, j < s.nsecondary → readAt s.data (s.soffset + s.srecsize * j) s.slen = some buf → (0 : UInt8) ∈ buf) ∧
-  (∀ j buf, j < s.nsecondary → readAt s.data (s.soffset + s.srecsize * j + s.slen) s.plen = some buf → (0 : UInt8) ∈ buf)
-
-/-- no stored alias names another stored alias as its target (the documented precondition of `AddAlias`, read off
-    the bytes) -/
+/-- no stored alias names another stored alias (the documented precondition of `AddAlias`, read off the bytes) -/
 def Ssi.NoAliasChain (s : Ssi) : Prop :=
   ∀ j a t, s.AliasRec j a t → ∀ j' t', ¬ s.AliasRec j' t t'
-
-/-- **no fault** on an index whose key fields are terminated — however truncated, unsorted or inconsistent it is
-    otherwise: `strcmp` never leaves a buffer -/
-theorem findName_no_fault (s : Ssi) (ht : s.Terminated) (fuel : Nat) (key : Bytes) :
-    s.findNameAux fuel key ≠ .error .fault := by
-  induction fuel generalizing key with
-  | zero => simp [Ssi.findNameAux]
-  | succ fuel ih =>
-    intro h
-    rw [Ssi.findNameAux] at h
-    cases hb : bsearch s.data key s.plen s.poffset s.precsize s.nprimary with
-    | ok pos =>
-      simp only [hb] at h
-      unfold readHit at h
-      split at h <;> cases h
-    | error e1 =>
-      simp only [hb] at h
-      cases e1 with
-      | enotfound =>
-        simp only [] at h
-        by_cases hn : s.nsecondary > 0
-        · simp only [hn, ↓reduceIte] at h
-          cases hb2 : bsearch s.data key s.slen s.soffset s.srecsize s.nsecondary with
-          | error e2 =>
-            simp only [hb2] at h
-            injection h with h
-            subst h
-            rcases bsearch_error _ _ _ _ _ _ _ hb2 with h1 | ⟨h1, _⟩ | ⟨j, hj, ⟨h1, _⟩ | ⟨_, buf, hbuf, hno⟩⟩
-            · cases h1
-            · cases h1
-            · cases h1
-            · exact hno (ht.2.1 j buf hj hbuf)
-          | ok pos =>
-            simp only [hb2] at h
-            obtain ⟨j, hj, _, rfl⟩ := bsearch_sound _ _ _ _ _ _ _ hb2
-            by_cases hpl : s.plen = 0
-            · simp [hpl] at h
-            · simp only [hpl, ↓reduceIte] at h
-              cases hra : readAt s.data (s.soffset + s.srecsize * j + s.slen) s.plen with
-              | none => simp [hra] at h
-              | some buf =>
-                simp only [hra] at h
-                have hz := ht.2.2 j buf hj hra
-                have hc : cstr? buf = some (cstr buf) := by simp [cstr?, hz]
-                simp only [hc] at h
-                exact ih _ h
-        · simp [hn] at h
-      | fault =>
-        rcases bsearch_error _ _ _ _ _ _ _ hb with h1 | ⟨h1, _⟩ | ⟨j, hj, ⟨h1, _⟩ | ⟨_, buf, hbuf, hno⟩⟩
-        · cases h1
-        · cases h1
-        · cases h1
-        · exact hno (ht.1 j buf hj hbuf)
-      | eformat => simp at h
-      | erange => simp at h
-      | edup => simp at h
-      | einval => simp at h
-      | esys => simp at h
-      | emem => simp at h
-      | eincompat => simp at h
-      | nohalt => simp at h
 
 /-- **termination**: when no stored alias names another stored alias, the recursion of `esl_ssi_FindName` is at most
     one level deep — two units of fuel are enough, whatever else the bytes are -/
@@ -357,14 +245,12 @@ theorem findName_halts (s : Ssi) (hc : s.NoAliasChain) (fuel : Nat) (key : Bytes
   cases hb : bsearch s.data key s.plen s.poffset s.precsize s.nprimary with
   | ok pos =>
     simp only [hb] at h
-    unfold readHit at h
-    split at h <;> cases h
+    have := readHit_error s pos _ h
+    cases this
   | error e1 =>
     simp only [hb] at h
-    have hb1 := bsearch_error _ _ _ _ _ _ _ hb
-    cases e1 with
-    | enotfound =>
-      simp only [] at h
+    rcases bsearch_error _ _ _ _ _ _ _ hb with rfl | ⟨rfl, _⟩
+    · simp only [] at h
       by_cases hn : s.nsecondary > 0
       · simp only [hn, ↓reduceIte] at h
         cases hb2 : bsearch s.data key s.slen s.soffset s.srecsize s.nsecondary with
@@ -372,102 +258,60 @@ theorem findName_halts (s : Ssi) (hc : s.NoAliasChain) (fuel : Nat) (key : Bytes
           simp only [hb2] at h
           injection h with h
           subst h
-          rcases bsearch_error _ _ _ _ _ _ _ hb2 with h1 | ⟨h1, _⟩ | ⟨j, hj, ⟨h1, _⟩ | ⟨h1, _⟩⟩ <;> cases h1
+          rcases bsearch_error _ _ _ _ _ _ _ hb2 with h1 | ⟨h1, _⟩ <;> cases h1
         | ok pos =>
           simp only [hb2] at h
           obtain ⟨j, hj, hrd, rfl⟩ := bsearch_sound _ _ _ _ _ _ _ hb2
-          by_cases hpl : s.plen = 0
-          · simp [hpl] at h
-          · simp only [hpl, ↓reduceIte] at h
-            cases hra : readAt s.data (s.soffset + s.srecsize * j + s.slen) s.plen with
-            | none => simp [hra] at h
-            | some buf =>
-              simp only [hra] at h
-              cases hcs : cstr? buf with
-              | none => simp [hcs] at h
-              | some pkey =>
-                simp only [hcs] at h
-                have hrec : s.AliasRec j key pkey := ⟨hj, hrd, buf, hra, hcs⟩
-                -- second level: the target is looked up; a second alias hit would be a chain
-                rw [Ssi.findNameAux] at h
-                cases hb3 : bsearch s.data pkey s.plen s.poffset s.precsize s.nprimary with
-                | ok pos3 =>
-                  simp only [hb3] at h
-                  unfold readHit at h
-                  split at h <;> cases h
-                | error e3 =>
-                  simp only [hb3] at h
-                  have hb3' := bsearch_error _ _ _ _ _ _ _ hb3
-                  cases e3 with
-                  | enotfound =>
-                    simp only [hn, ↓reduceIte] at h
-                    cases hb4 : bsearch s.data pkey s.slen s.soffset s.srecsize s.nsecondary with
-                    | error e4 =>
-                      simp only [hb4] at h
-                      injection h with h
-                      subst h
-                      rcases bsearch_error _ _ _ _ _ _ _ hb4 with h1 | ⟨h1, _⟩ | ⟨j, hj, ⟨h1, _⟩ | ⟨h1, _⟩⟩ <;> cases h1
-                    | ok pos4 =>
-                      simp only [hb4] at h
-                      obtain ⟨j', hj', hrd', rfl⟩ := bsearch_sound _ _ _ _ _ _ _ hb4
-                      simp only [hpl, ↓reduceIte] at h
-                      cases hra' : readAt s.data (s.soffset + s.srecsize * j' + s.slen) s.plen with
-                      | none => simp [hra'] at h
-                      | some buf' =>
-                        simp only [hra'] at h
-                        cases hcs' : cstr? buf' with
-                        | none => simp [hcs'] at h
-                        | some t' => exact hc j key pkey hrec j' t' ⟨hj', hrd', buf', hra', hcs'⟩
-                  | nohalt =>
-                    rcases hb3' with h1 | ⟨h1, _⟩ | ⟨j, hj, ⟨h1, _⟩ | ⟨h1, _⟩⟩ <;> cases h1
-                  | eformat => simp at h
-                  | erange => simp at h
-                  | edup => simp at h
-                  | einval => simp at h
-                  | esys => simp at h
-                  | emem => simp at h
-                  | eincompat => simp at h
-                  | fault => simp at h
+          cases hra : readAt s.data (s.soffset + s.srecsize * j + s.slen) s.plen with
+          | none => simp [hra] at h
+          | some buf =>
+            simp only [hra] at h
+            have hrec : s.AliasRec j key (cstr buf) := ⟨hj, hrd, buf, hra, rfl⟩
+            -- second level: the target is looked up; a second alias hit would be a chain
+            rw [Ssi.findNameAux] at h
+            cases hb3 : bsearch s.data (cstr buf) s.plen s.poffset s.precsize s.nprimary with
+            | ok pos3 =>
+              simp only [hb3] at h
+              have := readHit_error s pos3 _ h
+              cases this
+            | error e3 =>
+              simp only [hb3] at h
+              rcases bsearch_error _ _ _ _ _ _ _ hb3 with rfl | ⟨rfl, _⟩
+              · simp only [hn, ↓reduceIte] at h
+                cases hb4 : bsearch s.data (cstr buf) s.slen s.soffset s.srecsize s.nsecondary with
+                | error e4 =>
+                  simp only [hb4] at h
+                  injection h with h
+                  subst h
+                  rcases bsearch_error _ _ _ _ _ _ _ hb4 with h1 | ⟨h1, _⟩ <;> cases h1
+                | ok pos4 =>
+                  simp only [hb4] at h
+                  obtain ⟨j', hj', hrd', rfl⟩ := bsearch_sound _ _ _ _ _ _ _ hb4
+                  cases hra' : readAt s.data (s.soffset + s.srecsize * j' + s.slen) s.plen with
+                  | none => simp [hra'] at h
+                  | some buf' => exact hc j key (cstr buf) hrec j' (cstr buf') ⟨hj', hrd', buf', hra', rfl⟩
+              · simp at h
       · simp [hn] at h
-    | nohalt =>
-      rcases hb1 with h1 | ⟨h1, _⟩ | ⟨j, hj, ⟨h1, _⟩ | ⟨h1, _⟩⟩ <;> cases h1
-    | eformat => simp at h
-    | erange => simp at h
-    | edup => simp at h
-    | einval => simp at h
-    | esys => simp at h
-    | emem => simp at h
-    | eincompat => simp at h
-    | fault => simp at h
-
-theorem readHit_error (s : Ssi) (pos : Nat) (e : St) (h : readHit s pos = .error e) : e = .eformat := by
-  unfold readHit at h
-  split at h
-  · cases h
-  · injection h with h; exact h.symm
+    · simp at h
 
 /-! ## `esl_ssi_Open`, `esl_ssi_FindNumber`, `esl_ssi_FileInfo`, `esl_ssi_FindSubseq` on arbitrary bytes -/
 
 theorem openFiles_status (d : Array UInt8) (flen frecsize foffset n i : Nat) (e : St)
-    (h : openFiles d flen frecsize foffset n i = .error e) : e = .eformat ∨ e = .emem := by
+    (h : openFiles d flen frecsize foffset n i = .error e) : e = .eformat := by
   induction n generalizing i with
   | zero => simp [openFiles] at h
   | succ n ih =>
     rw [openFiles] at h
-    by_cases hf : flen = 0
-    · simp only [hf, ↓reduceIte] at h
-      injection h with h; simp [← h]
-    · simp only [hf, ↓reduceIte] at h
-      split at h
-      · injection h with h; simp [← h]
+    split at h
+    · injection h with h; exact h.symm
+    · split at h
       · split at h
-        · split at h
-          · rename_i e' he
-            injection h with h
-            subst h
-            exact ih _ he
-          · cases h
-        · injection h with h; simp [← h]
+        · rename_i e' he
+          injection h with h
+          subst h
+          exact ih _ he
+        · cases h
+      · injection h with h; exact h.symm
 
 theorem openFiles_length (d : Array UInt8) (flen frecsize foffset n i : Nat) (l : List SsiFile)
     (h : openFiles d flen frecsize foffset n i = .ok l) : l.length = n := by
@@ -475,24 +319,21 @@ theorem openFiles_length (d : Array UInt8) (flen frecsize foffset n i : Nat) (l 
   | zero => simp [openFiles] at h; simp [← h]
   | succ n ih =>
     rw [openFiles] at h
-    by_cases hf : flen = 0
-    · simp [hf] at h
-    · simp only [hf, ↓reduceIte] at h
-      split at h
-      · cases h
+    split at h
+    · cases h
+    · split at h
       · split at h
-        · split at h
-          · cases h
-          · rename_i rest hrest
-            injection h with h
-            subst h
-            simp [ih _ _ hrest]
         · cases h
+        · rename_i rest hrest
+          injection h with h
+          subst h
+          simp [ih _ _ hrest]
+      · cases h
 
-/-- `esl_ssi_Open` on ANY byte string: it succeeds, or fails with `eslEFORMAT` / `eslERANGE` (documented) or
-    `eslEMEM` (a zero file-name width); it never faults, and on success it holds exactly `nfiles ≥ 1` file records -/
+/-- `esl_ssi_Open` on ANY byte string: it succeeds, or fails with `eslEFORMAT` / `eslERANGE` (the documented statuses);
+    it never reads outside the file, and on success it holds exactly `nfiles ≥ 1` file records -/
 theorem open_status (d : Array UInt8) :
-    (∀ e, Ssi.open d = .error e → e = .eformat ∨ e = .erange ∨ e = .emem) ∧
+    (∀ e, Ssi.open d = .error e → e = .eformat ∨ e = .erange) ∧
     (∀ s, Ssi.open d = .ok s → s.data = d ∧ 0 < s.nfiles ∧ s.files.length = s.nfiles ∧ (s.offsz = 4 ∨ s.offsz = 8)) := by
   constructor
   · intro e h
@@ -509,7 +350,7 @@ theorem open_status (d : Array UInt8) :
               · rename_i e' he
                 injection h with h
                 subst h
-                rcases openFiles_status _ _ _ _ _ _ _ he with h1 | h1 <;> simp [h1]
+                simp [openFiles_status _ _ _ _ _ _ _ he]
               · cases h
           · injection h with h; simp [← h]
     · injection h with h; simp [← h]
@@ -537,10 +378,10 @@ theorem open_status (d : Array UInt8) :
     · cases h
 
 /-- `esl_ssi_FindNumber` on ANY index: `eslENOTFOUND` exactly for numbers outside `0..nprimary-1`; otherwise the
-    record at that slot, `eslEFORMAT` when the file ends before it does (`eslEMEM` for a zero-width key field) -/
+    record at that slot, or `eslEFORMAT` when the file ends before the record does -/
 theorem findNumber_status (s : Ssi) (i : Int) (hlo : -(2:Int)^63 ≤ i) (hhi : i < (2:Int)^63) (hn : s.nprimary < 2^63) :
     (s.findNumber i = .error .enotfound ↔ (i < 0 ∨ (s.nprimary : Int) ≤ i)) ∧
-    (∀ e, s.findNumber i = .error e → e = .enotfound ∨ e = .eformat ∨ e = .emem) := by
+    (∀ e, s.findNumber i = .error e → e = .enotfound ∨ e = .eformat) := by
   unfold Ssi.findNumber
   by_cases hneg : i < 0
   · have : (i + 18446744073709551616).toNat ≥ s.nprimary := by omega
@@ -551,19 +392,16 @@ theorem findNumber_status (s : Ssi) (i : Int) (hlo : -(2:Int)^63 ≤ i) (hhi : i
       simp [hge, this]
     · have hlt : ¬ ((s.nprimary : Int) ≤ i) := by omega
       simp only [hge, ↓reduceIte, hlt, iff_false]
-      by_cases hpl : s.plen = 0
-      · simp [hpl]
-      · simp only [hpl, ↓reduceIte]
-        cases hra : readAt s.data (s.poffset + s.precsize * i.toNat) s.plen with
-        | none => simp
-        | some buf =>
-          simp only []
-          cases hh : readHit s (s.poffset + s.precsize * i.toNat + s.plen) with
-          | ok hit => simp
-          | error e' =>
-            have := readHit_error s _ e' hh
-            subst this
-            simp
+      cases hra : readAt s.data (s.poffset + s.precsize * i.toNat) s.plen with
+      | none => simp
+      | some buf =>
+        simp only []
+        cases hh : readHit s (s.poffset + s.precsize * i.toNat + s.plen) with
+        | ok hit => simp
+        | error e' =>
+          have := readHit_error s _ e' hh
+          subst this
+          simp
 
 /-- `esl_ssi_FileInfo` on ANY opened index: every handle below `nfiles` has a record, every other one is `eslEINVAL` -/
 theorem fileInfo_total (d : Array UInt8) (s : Ssi) (h : Ssi.open d = .ok s) (fh : Nat) :
@@ -579,13 +417,12 @@ theorem fileInfo_total (d : Array UInt8) (s : Ssi) (h : Ssi.open d = .ok s) (fh 
   · intro hge
     simp [hge]
 
-/-- the statuses `esl_ssi_FindSubseq` can return on ANY index, and the exact conditions of its two own fault outcomes:
-    the file handle stored with the key is not a file of the index (`fileflags[fh]` is read outside the array), or the
-    file claims fast-subseq geometry with `rpl = 0` (integer division by zero, evaluated before the test) -/
-theorem findSubseq_status (s : Ssi) (key : Bytes) (start : Int) (e : St) (h : s.findSubseq key start = .error e) :
-    (s.findName key = .error e) ∨ e = .erange ∨ e = .einval ∨
-    (e = .fault ∧ ∃ hit, s.findName key = .ok hit ∧
-      (s.files[hit.fh]? = none ∨ ∃ f, s.files[hit.fh]? = some f ∧ f.flags % 2 = 1 ∧ f.rpl = 0)) := by
+/-- the statuses `esl_ssi_FindSubseq` can return on ANY opened index: `FindName`'s, `eslERANGE`, `eslEFORMAT` (the file
+    handle stored with the key is not a file of the index), `eslEINVAL` (fast-subseq flag with `rpl = 0` or `bpl = 0`).
+    It never reads outside the per-file arrays and never divides by zero. -/
+theorem findSubseq_status (s : Ssi) (hfl : s.files.length = s.nfiles) (key : Bytes) (start : Int) (e : St)
+    (h : s.findSubseq key start = .error e) :
+    (s.findName key = .error e) ∨ e = .erange ∨ e = .eformat ∨ e = .einval := by
   unfold Ssi.findSubseq at h
   cases hf : s.findName key with
   | error e' =>
@@ -597,115 +434,25 @@ theorem findSubseq_status (s : Ssi) (key : Bytes) (start : Int) (e : St) (h : s.
     simp only [hf] at h
     split at h
     · injection h with h; simp [← h]
-    · cases hfile : s.files[hit.fh]? with
-      | none =>
-        simp only [hfile] at h
-        injection h with h
-        exact .inr (.inr (.inr ⟨h.symm, hit, rfl, .inl hfile⟩))
-      | some f =>
-        simp only [hfile] at h
-        split at h
-        · cases h
-        · rename_i hfast
+    · split at h
+      · injection h with h; simp [← h]
+      · rename_i hfh
+        cases hfile : s.files[hit.fh]? with
+        | none =>
+          have : s.files.length ≤ hit.fh := List.getElem?_eq_none_iff.mp hfile
+          omega
+        | some f =>
+          simp only [hfile] at h
           split at h
-          · rename_i hr
-            injection h with h
-            refine .inr (.inr (.inr ⟨h.symm, hit, rfl, .inr ⟨f, hfile, by omega, hr⟩⟩))
+          · cases h
           · split at h
             · injection h with h; simp [← h]
             · split at h <;> cases h
 
-/-! ## `esl_ssi_FindSubseq` of any name that `FindName` resolves (primary key or alias) on a written index -/
+/-! ## every written index satisfies the termination condition -/
 
-/-- whatever name `FindName` resolves to the record of the stored key `k`: `FindSubseq` computes the documented outcome
-    from `k`'s record and the line geometry of `k`'s file -/
-theorem findSubseq_of_hit {ns : NewSsi} (key : Bytes) (k : PKey) (hfind : ns.opened.findName key = .ok (hitOf k))
-    (hfh : k.fnum < ns.files.length) (start : Nat) (h1 : 1 ≤ start) (h2 : start ≤ k.len) (hL : k.len < 2^63) :
-    ns.opened.findSubseq key (start : Int) = .ok (subseqSpec k ns.files[k.fnum] start) := by
-  have hsg : toSigned k.len = (k.len : Int) := by
-    unfold toSigned
-    have : ¬ (k.len ≥ 2^63) := by omega
-    simp [this]
-  have hrange : ¬ ((start : Int) < 1 ∨ (start : Int) > toSigned k.len) := by
-    rw [hsg]; omega
-  have hfile : ns.opened.files[(hitOf k).fh]? = some (toSsiFile ns.flen ns.files[k.fnum]) := by
-    simp [NewSsi.opened, hitOf, hfh]
-  unfold Ssi.findSubseq
-  rw [hfind]
-  simp only [hitOf] at hrange hfile ⊢
-  simp only [hrange, ↓reduceIte, hfile, toSsiFile, Int.toNat_natCast]
-  unfold subseqSpec
-  by_cases hfast : ns.files[k.fnum].bpl > 0 ∧ ns.files[k.fnum].rpl > 0
-  · have hr : ns.files[k.fnum].rpl ≠ 0 := by omega
-    have hb : ns.files[k.fnum].bpl ≠ 0 := by omega
-    by_cases hdo : k.doff = 0
-    · simp [hdo, hitOf]
-    · by_cases hbr : ns.files[k.fnum].bpl = ns.files[k.fnum].rpl + 1
-      · simp [hfast, hdo, hr, hbr, hitOf]
-      · simp [hfast, hdo, hr, hb, hbr, hitOf]
-  · simp [hfast, hitOf]
-
-theorem findSubseq_range_of_hit {ns : NewSsi} (key : Bytes) (k : PKey) (hfind : ns.opened.findName key = .ok (hitOf k))
-    (start : Int) (hr : start < 1 ∨ start > (k.len : Int)) (hL : k.len < 2^63) :
-    ns.opened.findSubseq key start = .error .erange := by
-  have hsg : toSigned k.len = (k.len : Int) := by
-    unfold toSigned
-    have : ¬ (k.len ≥ 2^63) := by omega
-    simp [this]
-  unfold Ssi.findSubseq
-  rw [hfind]
-  simp only [hitOf, hsg, hr, ↓reduceIte]
-
-/-- a name that `FindName` does not resolve is not resolved by `FindSubseq` either (same status) -/
-theorem findSubseq_of_error (s : Ssi) (key : Bytes) (start : Int) (e : St) (hfind : s.findName key = .error e) :
-    s.findSubseq key start = .error e := by
-  unfold Ssi.findSubseq
-  rw [hfind]
-
-/-! ## every written index satisfies the two no-fault conditions -/
-
-theorem zero_mem_strncpy (n : Nat) (k : Bytes) (hl : k.length < n) : (0 : UInt8) ∈ strncpy n k := by
-  obtain ⟨m, hm⟩ : ∃ m, n - k.length = m + 1 := ⟨n - k.length - 1, by omega⟩
-  unfold strncpy
-  rw [hm, List.replicate_succ]
-  simp
-
-/-- the image of a well-formed index whose alias targets are registered primary keys (`AddAlias`'s documented
-    precondition): every key field is terminated -/
-theorem image_terminated {ns : NewSsi} (h : ns.WF) (htg : ∀ a ∈ ns.skeys, ∃ k ∈ ns.pkeys, a.pkey = k.key) :
-    ns.opened.Terminated := by
-  refine ⟨?_, ?_, ?_⟩
-  · intro j buf hj hrd
-    have hj' : j < (sortPKeys ns.pkeys).length := by rw [sortP_len h]; exact hj
-    have hk := h.pkey _ (sortP_mem h (List.getElem_mem hj'))
-    have := read_pname h j hj'
-    simp only [NewSsi.opened] at hrd
-    rw [this] at hrd
-    injection hrd with hrd
-    rw [← hrd]
-    exact zero_mem_strncpy _ _ hk.2.2.1
-  · intro j buf hj hrd
-    have hj' : j < (sortSKeys ns.skeys).length := by rw [sortS_len h]; exact hj
-    have hk := h.skey _ (sortS_mem h (List.getElem_mem hj'))
-    have := read_sname h j hj'
-    simp only [NewSsi.opened] at hrd
-    rw [this] at hrd
-    injection hrd with hrd
-    rw [← hrd]
-    exact zero_mem_strncpy _ _ hk.2.2
-  · intro j buf hj hrd
-    have hj' : j < (sortSKeys ns.skeys).length := by rw [sortS_len h]; exact hj
-    obtain ⟨k, hk, hak⟩ := htg _ (sortS_mem h (List.getElem_mem hj'))
-    have hpk := h.pkey k hk
-    have hpl : ns.plen ≠ 0 := by omega
-    have := read_spkey h j hj' hpl
-    simp only [NewSsi.opened] at hrd
-    rw [this] at hrd
-    injection hrd with hrd
-    rw [← hrd, hak]
-    exact zero_mem_strncpy _ _ hpk.2.2.1
-
-/-- ... and, its keys being all distinct, no stored alias names another stored alias -/
+/-- the image of a well-formed index with all keys distinct whose alias targets are registered primary keys
+    (`AddAlias`'s documented precondition): no stored alias names another stored alias -/
 theorem image_noAliasChain {ns : NewSsi} (h : ns.WF) (hd : ns.Distinct)
     (htg : ∀ a ∈ ns.skeys, ∃ k ∈ ns.pkeys, a.pkey = k.key) : ns.opened.NoAliasChain := by
   intro j a t hrec j' t' hrec'
@@ -720,8 +467,7 @@ theorem image_noAliasChain {ns : NewSsi} (h : ns.WF) (hd : ns.Distinct)
   have hpl : ns.plen ≠ 0 := by omega
   rw [read_spkey h j hjs hpl] at hbuf
   injection hbuf with hbuf
-  rw [← hbuf, hak, cstr?_strncpy _ _ hpk.2.1 hpk.2.2.1] at hcs
-  injection hcs with hcs
+  rw [← hbuf, hak, cstr_strncpy _ _ hpk.2.1 hpk.2.2.1] at hcs
   -- record j' carries the alias t
   have hr := reads_skeys h j' (by simpa using hjs')
   rw [hr] at hrd'
